@@ -735,4 +735,12 @@ theorem optRelValL_eq (o : RelOps α β) (o' : RelOps β α) (hsym : ∀ x y, o'
 example : (∀ x y : Nat, natOps .eq y x = natOps .eq x y) ∧ (∀ x y : Nat, natOps .ne y x = !natOps .eq y x) :=
   ⟨natOps_sym, fun x y => natOps_ne y x⟩
 
+/-- optional<T&> from optional<U> (converting constructor and converting assignment): never reads a disengaged source
+    (no `.error`), empty source -> empty, engaged source -> bound to the object the source holds -/
+theorem orefConv_eq (src : Option Nat) : orefConv src = .ok (Spec.orefConv src) := by
+  cases src <;> rfl
+
+-- test (samples): both source states
+example : orefConv (some 2) = .ok (some 2) ∧ orefConv none = .ok none := ⟨rfl, rfl⟩
+
 end Tetl.C07.Props
